@@ -106,6 +106,7 @@ fn main() {
         "C11" => checks::c11::run(&ctx),
         "C12" => checks::c12::run(&ctx),
         "C13" => checks::c13::run(&ctx),
+        "C15" => checks::c15::run(&ctx),
         _ => {
             eprintln!("unknown property {prop}");
             2
